@@ -312,7 +312,7 @@ fn build_request(cfg: &RouterConfig, r: &Value) -> Result<Request, String> {
     let so = r.get("so").and_then(|x| x.as_bool());
     let ctor = opt_s(r, "ctor").unwrap_or_else(|| "config".to_string());
     let mut req = match ctor.as_str() {
-        "config" => Request::from_config(cfg, url, opt_s(r, "host"), opt_s(r, "scheme"), opt_s(r, "method"), ip, so),
+        "config" | "rebuild" => Request::from_config(cfg, url, opt_s(r, "host"), opt_s(r, "scheme"), opt_s(r, "method"), ip, so),
         "new" => Request::new(PathAndQueryWithSkipped::from_config(cfg, &url), url, opt_s(r, "host"), opt_s(r, "scheme"), opt_s(r, "method"), ip, so),
         "static" => Request::new(PathAndQueryWithSkipped::from_static(&url), url, opt_s(r, "host"), opt_s(r, "scheme"), opt_s(r, "method"), ip, so),
         "str" => url.parse::<Request>().map_err(|e| format!("req from_str: {e}"))?,
@@ -981,37 +981,61 @@ fn gen_action_src(rng: &mut Prng) -> Value {
     json!({"cfg": gen_cfg(rng), "rules": rules, "req": gen_req_spec(rng, true)})
 }
 
-fn gen_router_rules(rng: &mut Prng) -> Value {
-    let n = rng.range(1, 6);
+fn gen_router_rules(rng: &mut Prng, spec: &Value) -> Value {
+    let n = rng.range(2, 8);
     let mut rules = Vec::new();
+    let url = spec.get("url").and_then(|u| u.as_str()).unwrap_or("/");
+    let url = url.strip_prefix("http://h.example").unwrap_or(url);
+    let (upath, uquery) = match url.split_once('?') {
+        Some((p, q)) => (p.to_string(), Some(q.to_string())),
+        None => (url.to_string(), None),
+    };
     for i in 0..n {
-        let mut source = json!({"path": *rng.pick(&["/x/abc", "/x/abc", "/X/ABC", "/", "/é", "/x/@m"])});
-        if rng.chance(1, 3) {
+        // mostly triggers taken from the request itself, so that rules do match
+        let near = rng.chance(3, 4);
+        let path = if near && upath.starts_with('/') { upath.clone() } else { (*rng.pick(&["/x/abc", "/X/ABC", "/", "/é", "/x/@m"])).to_string() };
+        let mut source = json!({"path": path});
+        if near {
+            if let Some(q) = &uquery {
+                if rng.chance(3, 4) {
+                    source["query"] = json!(q.replace("utm_source=a&", "").replace("&utm_source=a", "").replace("utm_source=a", ""));
+                }
+            }
+        } else if rng.chance(1, 3) {
             source["query"] = json!(*rng.pick(&["a=1&b=2", "b=2&a=1", "utm_source=a", ""]));
         }
-        if rng.chance(1, 3) {
-            source["host"] = json!(*rng.pick(&["example.org", "EXAMPLE.org", "h.example", ""]));
+        if rng.chance(1, 6) {
+            source["host"] = match spec.get("host").and_then(|h| h.as_str()) {
+                Some(h) if rng.chance(2, 3) => json!(h),
+                _ => json!(*rng.pick(&["example.org", "EXAMPLE.org", "h.example", ""])),
+            };
         }
-        if rng.chance(1, 3) {
-            source["scheme"] = json!(*rng.pick(&["http", "https"]));
+        if rng.chance(1, 6) {
+            source["scheme"] = match spec.get("scheme").and_then(|h| h.as_str()) {
+                Some(h) if rng.chance(2, 3) => json!(h),
+                _ => json!(*rng.pick(&["http", "https"])),
+            };
         }
-        if rng.chance(1, 3) {
-            source["methods"] = json!([*rng.pick(&["GET", "POST", "PURGE"])]);
+        if rng.chance(1, 6) {
+            source["methods"] = match spec.get("method").and_then(|h| h.as_str()) {
+                Some(h) if rng.chance(2, 3) => json!([h]),
+                _ => json!([*rng.pick(&["GET", "POST", "PURGE"])]),
+            };
             if rng.chance(1, 3) {
                 source["exclude_methods"] = json!(true);
             }
         }
-        if rng.chance(1, 3) {
-            source["headers"] = json!([{"type": *rng.pick(&["is_defined", "is_not_defined", "is_equals", "contains"]), "name": *rng.pick(&["X-A", "x-a", "Host"]), "value": *rng.pick(STRS)}]);
-        }
-        if rng.chance(1, 3) {
-            let kind = if rng.chance(1, 2) { "in_range" } else { "not_in_range" };
-            source["ips"] = json!([{kind: *rng.pick(&["1.2.3.0/24", "10.0.0.0/8", "::/0", "::1/128", "2001:db8::/32", "0.0.0.0/0"])}]);
-        }
-        if rng.chance(1, 3) {
-            source["datetime"] = json!([[*rng.pick(&[Value::Null, json!("2024-01-02T03:04:05Z"), json!("2000-01-01T00:00:00Z")]), *rng.pick(&[Value::Null, json!("2024-01-02T03:04:05.5Z"), json!("2030-01-01T00:00:00Z")])]]);
+        if rng.chance(1, 6) {
+            source["headers"] = json!([{"type": *rng.pick(&["is_defined", "is_not_defined", "is_equals", "contains", "is_not_equal_to"]), "name": *rng.pick(&["X-A", "x-a", "Host", "User-Agent"]), "value": *rng.pick(STRS)}]);
         }
         if rng.chance(1, 6) {
+            let kind = if rng.chance(2, 3) { "in_range" } else { "not_in_range" };
+            source["ips"] = json!([{kind: *rng.pick(&["1.2.3.0/24", "10.0.0.0/8", "::/0", "::1/128", "2001:db8::/32", "0.0.0.0/0", "::ffff:1.2.3.0/120"])}]);
+        }
+        if rng.chance(1, 6) {
+            source["datetime"] = json!([[*rng.pick(&[Value::Null, json!("2024-01-02T03:04:05Z"), json!("2000-01-01T00:00:00Z"), json!("2024-01-02T03:04:05.123456789Z")]), *rng.pick(&[Value::Null, json!("2024-01-02T03:04:05.5Z"), json!("2030-01-01T00:00:00Z"), json!("2024-01-02T03:04:05.123456790Z")])]]);
+        }
+        if rng.chance(1, 8) {
             source["sampling"] = json!(*rng.pick(&[0u32, 100]));
         }
         let mut r = json!({"id": format!("m{i}"), "rank": rng.below(3), "source": source, "status_code": 301, "target": "/t"});
@@ -1373,7 +1397,7 @@ fn gen(args: &Args, emit: &mut dyn FnMut(Value)) {
                 Err(_) => continue,
             };
             let j = J::parse(&serde_json::to_string(&q).unwrap()).unwrap();
-            let case = json!({"k": "request", "j": j.tagged(), "src": [{"cfg": cfg, "req": spec}], "atoms": atoms_of(&j), "router": gen_router_rules(&mut rng)});
+            let case = json!({"k": "request", "j": j.tagged(), "src": [{"cfg": cfg, "req": spec}], "atoms": atoms_of(&j), "router": gen_router_rules(&mut rng, &spec)});
             ("request", j, case)
         } else {
             let src = gen_action_src(&mut rng);
